@@ -443,5 +443,11 @@ def unit_mlp_consistency(S):
                 what="evaluate_action(o, a, mask) == (value, log_prob) reported by action_and_value(o, k, mask) for its own sample a (same features, same masked law)")
 
 
+def _ctor_unit():
+    from contracts import _ctor
+    from lerax.algorithm import REINFORCE
+    return _ctor.unit_constructor([(PPO, {}, ("gamma",)), (A2C, {}, ("gamma",)), (REINFORCE, {}, ("gamma",))])
+
+
 UNITS = [(f"step:{c}", unit_step(c)) for c in CONFIGS] + [("filter_cond", unit_filter_cond), ("initial", unit_initial),
-                                                         ("collect", unit_collect), ("mlp-consistency", unit_mlp_consistency)]
+                                                         ("collect", unit_collect), ("mlp-consistency", unit_mlp_consistency), ("constructor", _ctor_unit())]
